@@ -6,6 +6,7 @@ import (
 	"io"
 	"reflect"
 	"sort"
+	"strconv"
 	"strings"
 	"time"
 
@@ -540,6 +541,31 @@ func pubsubHarness(rc *RunCtx) {
 		settle(2 * time.Second)
 		rawTopicsCheck()
 		regionalCheck()
+		if nb != nil && tp.Intn("earlypub", 4) == 1 {
+			// a subscription is in force once Subscribe has returned: the broker is slow to read the subscriber's
+			// connection while a second subscriber (another user) subscribes, and the publisher - another
+			// connection - publishes for that user the moment Subscribe is back
+			rc.Fault("publish-the-moment-subscribe-returns-over-a-slow-subscriber-connection")
+			if bc := nb.Conn(1); bc != nil {
+				bc.StallInbound(time.Duration(5+tp.Intn("earlypub", 200)) * time.Millisecond)
+			}
+			earlyGot := 0
+			sub2, err := sub.SubscribeItemCreated(user+"e", func(fctx frugal.FContext, it *simsvc.Item) {
+				if it.ID == 30001 {
+					earlyGot++
+				}
+			})
+			if err != nil {
+				rc.Violate("C07", "subscribe-failed", key, "second subscriber over a slowly read connection: "+err.Error())
+			} else {
+				perr := pub.PublishItemCreated(frugal.NewFContext("early"), user+"e", genItem(tp, 30001))
+				settle(2 * time.Second)
+				if perr == nil && earlyGot != 1 {
+					rc.Violate("C07", "delivery-count", key+" got="+strconv.Itoa(earlyGot), fmt.Sprintf("a message published (from another connection) right after Subscribe had returned was delivered %d times; the broker was reading the subscriber's connection slowly while it subscribed", earlyGot))
+				}
+				sub2.Unsubscribe()
+			}
+		}
 		for i := 0; i < nInflight; i++ {
 			publish("inflight")
 		}
